@@ -244,7 +244,9 @@ func (m Map[K, V]) SlowEqual(other Map[K, V]) bool {
 			}
 			k2, v2, _ := iter2.Next()
 			// Equal lengths, no need to check 'ok' for 'iter2'.
-			if !bytes.Equal(k1, k2) || !reflect.DeepEqual(v1, v2) {
+			// Keys are identified by their bytes, only the values are compared
+			// with DeepEqual (as in the singleton case above).
+			if !bytes.Equal(k1, k2) || !reflect.DeepEqual(v1.Value, v2.Value) {
 				return false
 			}
 		}
